@@ -87,6 +87,16 @@ def conduit_rules(ctx, c, cfg):
                 # wake() itself, or a local helper that calls wake() on every path (interprocedural must-summary)
                 direct = prog.blocks_must_calling(b, lambda x: x.is_method(COND, "wake"), depth=ctx.depth)
                 ok, wit = must_follow(b, blk, direct)
+                if not ok:
+                    # the same thing spelled out: the stored waker is taken (under the lock) and woken, possibly after the lock was released
+                    takes_ = {x.block for x in calls_on_field(b, COND, "waker") if x.name == "take"}
+                    wk_ = [x for x in b.calls if x.is_method("core::task::wake::Waker", "wake") or x.is_method("Waker", "wake_by_ref") or (x.name in ("wake", "wake_by_ref") and "Waker" in (x.defpath or ""))]
+                    if takes_ and wk_:
+                        ok2, wit2 = must_follow(b, blk, set(direct) | takes_)
+                        # a taken waker is woken on its Some edge
+                        woken = all(any(b.reaches(t_, {w_.block}) for w_ in wk_) for t_ in takes_)
+                        if ok2 and woken:
+                            ok, wit = True, None
                 fnm = b.meta.get("name") if b in own else "%s::%s" % ((b.meta.get("self_adt") or "?").split("::")[-1], b.meta.get("name"))
                 r.check(ok, "%s/%s=>wake" % (fnm, what.split(" ")[0]), b.loc(line),
                         "%s is followed by self.wake() on every path to return" % what,
